@@ -3,8 +3,8 @@
 From Coq Require Import List Bool ZArith QArith String.
 From XV Require Import Base.Res Base.Assoc Base.CorrUtil Base.Ops Base.QNOps Base.Seq1D Base.Tensor
      Model.Axis Model.GridCtor Model.Pad Model.GridOps Model.GridOpsTable Model.Dispatch Model.Cumsum
-     Model.Signature Model.UFunc Model.Transform Model.Refuse Spec.S02
-     Corr.Eval_C01 Corr.Eval_C08 Corr.Eval_C11.
+     Model.Signature Model.UFunc Model.Transform Model.Refuse Model.Registry Model.Metrics Spec.S02
+     Proofs.P10 Corr.Eval_C01 Corr.Eval_C08 Corr.Eval_C11.
 Import ListNotations.
 Open Scope string_scope.
 Open Scope nat_scope.
@@ -14,7 +14,11 @@ Inductive req20 : Type :=
 | R_op (c : ctor_args Q) (dssizes : dimlist) (ds : dimlist) (vals : list Q) (k : rawcall (A:=Q))
 | R_transform (tc : tcall (A:=QN))
 | R_ufunc (cs : case11)
-| R_ctor (c : ctor_args Q) (fill : kw (option Q)).
+| R_ctor (c : ctor_args Q) (fill : kw (option Q))
+(* a metric operation (get_metric / integrate / average / cumint / derivative): the axes' dimensions, how the
+   registry came about, the array's dimensions, the requested axes *)
+| R_metric (axis_dims : list (string * list string)) (env : reg_env) (hist : list reg_call)
+           (array_dims axes : list string).
 
 Record case20 : Type := {
   c20_req : req20;
@@ -99,6 +103,7 @@ Definition must_refuse (r : req20) : bool :=
   | R_transform tc => ill_posed_transform tc
   | R_ufunc cs => ill_posed_ufunc cs
   | R_ctor c fill => ill_posed_ctor c fill
+  | R_metric axd _ _ ad axes => ill_posed_metric axd ad axes
   end.
 
 (* ---- the model ---- *)
@@ -126,6 +131,9 @@ Definition model_outcome (r : req20) : option (option ekind) :=     (* None: no 
     Some (match grid_ctor 0%Q c with
           | Ok _ => if fill_numeric fill then None else Some TypeError
           | Err e => Some e end)
+  | R_metric axd env hist ad axes =>
+    Some (match get_metric axd (fst (run_history env [] hist)) ad axes with
+          | Ok _ => None | Err e => Some e end)
   end.
 
 Definition okind_eqb (a b : option ekind) : bool :=
